@@ -207,6 +207,7 @@ def finish(run, mod, extra_coverage=None, selftest=None):
         'type_fixpoint_iterations': run.types.iterations,
         'files': run.prog.files_digest(),
         'pruned_dead_code': sorted(set(p for m in run.prog.modules.values() for p in m.pruned)),
+        'helpers_inlined': list(run.prog.inlined),
         'known_findings_reported': sorted(set(f['key'] for f, _ in known_hit)),
         'checker_cmd': './check %s --tier %s' % (run.prop, run.tier),
         'trusted_base': ['CPython ast module', 'lomondsa CFG/dominator/exception-edge construction',
